@@ -55,7 +55,10 @@ Restrict == LET M == {i \in 1 .. Len(stk) : stk[i].k = "mod"} IN
             IF M = {} THEN None ELSE stk[CHOOSE i \in M : \A j \in M : j <= i].ob
 
 DestTry(o) ==
-  /\ Push([k |-> "dest", ob |-> o, ok |-> IF Restrict = None \/ Restrict = o THEN "yes" ELSE "no"])
+  \* inside a move_or_destruct hook a destruct of another object is normally refused; an error caught inside the hook
+  \* lifts that restriction (the driver resets it during error recovery), so such a destruct may also be performed -
+  \* the property only asks that the world stays consistent either way
+  /\ Push([k |-> "dest", ob |-> o, ok |-> IF Restrict = None \/ Restrict = o THEN "yes" ELSE "any"])
   /\ UNCHANGED <<alive, env>>
 
 DestRes(o, ok) ==
